@@ -163,7 +163,13 @@ pub struct Profile {
 pub fn profile(sc: &Scenario, root: &Utf8PathBuf, a: usize, b: usize) -> Profile {
     let mut clean = sc.clone();
     clean.script.clear();
-    let rec = world::run(&clean, root, &RunOpts { sample_puts: false, ..RunOpts::default() });
+    profile_keep_script(&clean, root, a, b)
+}
+
+/// like `profile`, but the scenario's script stays in force (exchange as it runs under these faults)
+pub fn profile_keep_script(sc: &Scenario, root: &Utf8PathBuf, a: usize, b: usize) -> Profile {
+    let clean = sc;
+    let rec = world::run(clean, root, &RunOpts { sample_puts: false, ..RunOpts::default() });
     let mut p = Profile { end_us: rec.end_vt, ..Default::default() };
     for e in &rec.events {
         if let EvKind::Send { src, dst, kind, injected: false, .. } = &e.k {
